@@ -462,6 +462,10 @@ func c02Kind(body []byte) string {
 	if err := json.Unmarshal(body, &req); err != nil {
 		return "KBadJson"
 	}
+	if err := req.CheckValid(); err != nil {
+		// refused by the validation of the room API (400, nothing published), see C11
+		return "KBadJson"
+	}
 	switch req.Type {
 	case "message":
 		if req.Message != nil && len(req.Message.Data) > 0 {
